@@ -248,6 +248,8 @@ EXTRA10 = {
 for _pid, (_t, _n) in EXTRA10.items():
     EXTRA[_pid] = (EXTRA.get(_pid, ("", ""))[0] + _t, EXTRA.get(_pid, ("", ""))[1] + _n)
 EXTRA11 = {
+ "C06": (" The Hall-Yarbrough routine is run symbolically up to its first data-dependent loop test only: t * T_r == 1 for real and integer T_r, dtype-independent state, iterate no longer the starting guess; its termination and agreement with DAK are not decided.",
+         " Hall-Yarbrough: first loop test only."),
  "C01": (" The solve the code reaches on fine grids (129 and 401 nodes; thorough 65..513) carries the contract the bounds jobs assume: direct, or iterative with max(atol, rtol B) <= 1e-9 B + 1e-11 for all B >= 0.",
          " Solve contract probed at the listed node counts only."),
 }
